@@ -72,7 +72,8 @@ TLC_ENV = {"JAVA_TOOL_OPTIONS": "-Xss1g -XX:+UseParallelGC"}
 
 
 def tlc(spec, cfg, workdir, env=None, workers=1, timeout=3600, extra=(), heap="3g"):
-    md = os.path.join(workdir, "md_%s_%d" % (os.path.basename(cfg), os.getpid()))
+    import uuid
+    md = os.path.join(workdir, "md_%s_%s" % (os.path.basename(cfg), uuid.uuid4().hex[:10]))
     e = dict(TLC_ENV)
     e["JAVA_TOOL_OPTIONS"] = e["JAVA_TOOL_OPTIONS"] + " -Xmx" + heap
     if env:
@@ -235,7 +236,9 @@ def run_and_validate(jobs, name, workdir, atomics="st", specs=("Trace_Abs",), np
                 lines = open(p).read().splitlines()
                 for v in r["viols"]:
                     jid = idx[v["x"] - 1][0]
-                    v2 = {"id": jid, "prop": v["prop"], "why": v["why"], "spec": sp,
+                    first = idx[v["x"] - 1][1]
+                    evs = [json.loads(l) for l in lines[first - 1:v["line"]] if '"e":"at"' not in l]
+                    v2 = {"id": jid, "prop": v["prop"], "why": v["why"], "spec": sp, "evs": evs,
                           "ev": json.loads(lines[v["line"] - 1]), "file": p, "line": v["line"], "x": v["x"]}
                     res["viols"].append(v2)
     res["validate_s"] = time.time() - t1
